@@ -14,6 +14,7 @@ def trickle_history(rng, n):
     ops = [[0] + o for o in g.ops]
     g.ops = []
     mode = rng.choice(["burst", "trickle", "mixed", "edge"])
+    big = rng.random() < 0.12
     for _ in range(n):
         b = rng.choice(g.buckets)
         q = rng.random()
@@ -38,6 +39,18 @@ def trickle_history(rng, n):
                 dt = rng.choice([0, 1000, 300_000, 3_000_000, 11_000_000, 60_000_000, 3_600_000_000])
             ops.append([dt] + o)
         g.ops = []
+        if rng.random() < 0.06:
+            # the heartbeat loop's limit-1 read, then possibly a long pause before the next write
+            ops.append([rng.choice([0, 1000, 11_000_000]), "read1", rng.choice(g.buckets)])
+        if big and rng.random() < 0.1:
+            # a bulk insert larger than any batch size, issued after a pause (at most one per history: every later
+            # observation lists all of it)
+            big = False
+            b = rng.choice(g.buckets)
+            n = rng.choice([101, 120, 150])
+            ops.append([rng.choice([11_000_000, 60_000_000, 2_000_000]), "bulk", b, [storegen.rand_ev(rng) for _ in range(n)]])
+            g.live[b] += list(range(g.nrefs, g.nrefs + n))
+            g.nrefs += n
         if rng.random() < 0.05:
             # a rejected write (stale handle of a bucket that does not exist) in between: it must not leave the store
             # in a state in which later writes are no longer flushed. (The references it would have created stay unassigned.)
